@@ -57,6 +57,18 @@ int Pool::find(const void *q) const {
 }
 Pool &pool() { static Pool p; p.init(); return p; }
 
+#if defined(__has_feature)
+#if __has_feature(address_sanitizer)
+extern "C" void __asan_poison_memory_region(void const volatile *addr, size_t size);
+extern "C" void __asan_unpoison_memory_region(void const volatile *addr, size_t size);
+#define BORROWED_POISON(a, n) __asan_poison_memory_region((a), (n))
+#define BORROWED_UNPOISON(a, n) __asan_unpoison_memory_region((a), (n))
+#endif
+#endif
+#ifndef BORROWED_POISON
+#define BORROWED_POISON(a, n) ((void)0)
+#define BORROWED_UNPOISON(a, n) ((void)0)
+#endif
 namespace borrowed {
 static char *g_region = nullptr;
 static const size_t REGION = (size_t)16 << 20;
@@ -69,6 +81,7 @@ static void init() {
 }
 void reset_run() {
     init();
+    if (g_used) BORROWED_UNPOISON(g_region, (g_used + 7) & ~(size_t)7);
     if (g_used) {
         mprotect(g_region, (g_used + 4095) & ~(size_t)4095, PROT_READ | PROT_WRITE);
         if (g_used > (1u << 20)) madvise(g_region, g_used, MADV_DONTNEED);
@@ -87,10 +100,15 @@ void open() {
 const char *put(const std::string &s) {
     if (!g_open) abort();
     size_t need = s.size() + 1;
-    if (g_used + need > g_sealed_upto + ((size_t)1 << 20) || g_used + need > REGION) return nullptr;
-    char *p = g_region + g_used;
+    // the text ends flush against an 8-byte granule that is poisoned for the sanitizer: reading one byte beyond the
+    // terminator of a lent text is reported (texts made by the parser have slack there, a caller's exact-size text has none)
+    size_t start = ((g_used + need + 7) & ~(size_t)7) - need;
+    size_t end = start + need;
+    if (end + 8 > g_sealed_upto + ((size_t)1 << 20) || end + 8 > REGION) return nullptr;
+    char *p = g_region + start;
     memcpy(p, s.c_str(), need);   // embedded zero bytes end the C string, as for any caller
-    g_used += need;
+    BORROWED_POISON(g_region + end, 8);
+    g_used = end + 8;
     return p;
 }
 void seal() {
@@ -457,8 +475,11 @@ double gen_number(Rng &r, bool allow_nonfinite, bool plain) {
         }
         if (r.chance(1, 12)) {  // whole numbers beyond the int range and at its ends (pairwise different by far more than an epsilon)
             static const double big[] = {3000000000.0, 10000000000.0, 20000000000.0, -3000000000.0, -10000000000.0, 4294967296.0, 2147483648.0, 2147483647.0,
-                                         -2147483648.0, -2147483647.0, -2147483649.0, 1099511627776.0, 4503599627370496.0, -4503599627370496.0};
-            return big[r.below(14)];
+                                         -2147483648.0, -2147483647.0, -2147483649.0, 1099511627776.0, 4503599627370496.0, -4503599627370496.0,
+                                         9223372036854775808.0, -9223372036854775808.0, 18446744073709551616.0,
+                                         // magnitudes whose sum or product overflows a double
+                                         1e308, 1.5e308, 1.25e308, 9e307, -1.2e308, -9e307, 1.7976931348623157e308, -1.7976931348623157e308};
+            return big[r.below(25)];
         }
         switch (r.below(4)) {
             case 0: return (double)r.range(-20, 20);
@@ -472,7 +493,14 @@ double gen_number(Rng &r, bool allow_nonfinite, bool plain) {
         case 1: return (double)r.range(-100000, 100000);
         case 2: { static const double b[] = {2147483647.0, 2147483648.0, -2147483648.0, -2147483649.0, 2147483646.0, 4294967296.0, 2147483647.5, -2147483648.5,
                                               -2147483647.0, -2147483647.5, -2147483646.0, 2147483646.5, 2147483648.5, -2147483647.25, 3000000000.0, -3000000000.0}; return b[r.below(16)]; }
-        case 3: { double base = 1e15; return (r.chance(1, 2) ? 1 : -1) * (base + (double)r.range(-3, 3)); }
+        case 3: {
+            if (r.chance(1, 3)) {  // the ends of the 32/64-bit integer types as doubles, and their neighbours
+                static const double p2[] = {9223372036854775808.0, 9223372036854774784.0, 9223372036854777856.0, 18446744073709551616.0, 18446744073709549568.0,
+                                            4294967296.0, 4294967295.0, 4294967297.0, 9007199254740992.0, 2147483648.0, 65536.0, 32768.0};
+                return (r.chance(1, 2) ? 1 : -1) * p2[r.below(12)];
+            }
+            double base = 1e15; return (r.chance(1, 2) ? 1 : -1) * (base + (double)r.range(-3, 3));
+        }
         case 4: { static const double b[] = {999999999999999.0, 1e15, 1000000000000001.0, 9007199254740991.0, 9007199254740992.0, 9007199254740993.0, 123456789012345.0, 99999999999999.98}; return (r.chance(1, 2) ? 1 : -1) * b[r.below(8)]; }
         case 5: return std::pow(10.0, (double)r.range(-320, 308));
         case 6: { static const double b[] = {0.1, 0.2, 0.3, 0.1 + 0.2, 1.5, 2.5e-7, 1.0 / 3.0, 2.0 / 3.0, 3.14159, 1e21, 1e-5, 123.456, 0.30000000000000004, 5e-324, 2.2250738585072014e-308, 4.9406564584124654e-324}; return (r.chance(1, 4) ? -1 : 1) * b[r.below(16)]; }
@@ -569,6 +597,7 @@ MVal *gen_value(Rng &r, const GenOpts &o, int depth) {
     MVal *m = mv_new(obj ? T_OBJECT : T_ARRAY);
     size_t n = (size_t)r.below((uint64_t)o.max_kids + 1);
     if (r.chance(1, 30)) n += (size_t)r.below(30);
+    else if (depth <= 1 && r.chance(1, 60)) n = 33 + (size_t)r.below(100);   // wide containers: beyond the sizes (32, 64, 128) a threshold could sit at
     for (size_t i = 0; i < n; i++) {
         MVal *k = gen_value(r, o, depth + 1);
         if (obj) {
